@@ -84,6 +84,8 @@ PLAN = {
         "families": [{"gen": ("tlc", {"name": "write-sequences", "tla": "RequestWrite.tla", "cfg": "RequestWrite.cfg", "cfg_thorough": "RequestWrite_thorough.cfg", "workers": 8}),
                       "runner": "loop", "trace": "Trace_SendLoop"},
                      fam("c07_req", runner="loop", trace="Trace_SendLoop"),
+                     {"gen": ("tlc", {"name": "default-headers", "tla": "MC_Defaults.tla", "cfg": "MC_Defaults.cfg", "workers": 8}),
+                      "runner": "loop", "trace": "Trace_SendLoop"},
                      {"gen": ("tlc", {"name": "hop-chains", "tla": "MC_Hops.tla", "cfg": "MC_Hops.cfg", "cfg_thorough": "MC_Hops_thorough.cfg", "workers": 8}),
                       "runner": "loop", "trace": "Trace_SendLoop"}],
         "rule": "RequestWrite.tla (BufWriter/ChunkedWriter model) checked by TLC for all sequences of up to 4 write calls with sizes {0,1,8191,8192,8193}, each sequence replayed through a user-defined Body (chunked and known-length); seeded random requests over methods (incl. extension tokens), paths with unicode/percent/space, param(s) with &=#+% and non-ASCII, header names/values over their alphabets, set and append, basic/bearer credentials, all body kinds and sizes around 8 KiB; body kinds through redirect chains",
